@@ -284,16 +284,11 @@ def _designator(rnd, want, depth=0):
     return text, base, (used, bases)
 
 
-def struct_batch(arg):
-    """Statements whose designators go through derived types: the index
-    variables of EVERY component (and the bases) are read, the base of an
-    assignment target / of an actual argument of a non-pure call is written.
-    The expected sets are known by construction."""
-    from psyclone.psyir.nodes import Routine
-    part = Part()
-    rnd = random.Random(arg["seed"])
-    for n in range(arg["count"]):
-        stmts = []      # (text lines, kind, expected reads, expected writes)
+def struct_statements(rnd):
+    """[(text lines, kind, expected reads, expected writes)] of 3-6 random
+    statements through derived types."""
+    stmts = []
+    if True:
         for _ in range(rnd.randint(3, 6)):
             x = rnd.random()
             if x < 0.3:
@@ -324,6 +319,21 @@ def struct_batch(arg):
                 stmts.append((["do d = 1, max(1, min(3, %s))" % at,
                                "  x = x + 1.0d0", "end do"], "do",
                               au | abs_ | {ab, "x"}, {"x", "d"}))
+    return stmts
+
+
+def struct_batch(arg):
+    """Statements whose designators go through derived types: the index
+    variables of EVERY component (and the bases) are read, the base of an
+    assignment target / of an actual argument of a non-pure call is written.
+    The expected sets are known by construction."""
+    from psyclone.psyir.nodes import Routine
+    part = Part()
+    rnd = random.Random(arg["seed"])
+    for n in range(arg["count"]):
+        stmts = struct_statements(rnd)
+        for _ in ():
+            pass
         text = STRUCT_HEAD + "".join("    %s\n" % l for st in stmts
                                      for l in st[0]) + \
             "  end subroutine kern\nend module smod\n"
